@@ -148,6 +148,7 @@ type OracleState struct {
 	havePrev  bool
 	prevBytes []byte
 	rawPart   bool // the history wrote partition metadata as raw bytes (finding D7's trigger)
+	foreign   bool // the image was loaded (written by someone else): a free slot may carry a number in use
 	expect    map[uint32]expectObj
 	launch    []byte
 }
@@ -187,6 +188,17 @@ func oracleC02(e *Env, st *OracleState, i int, op *Op, res string) *Violation {
 		if d := diffSnap(st.prev, cur); d != "" {
 			return &Violation{Prop: "C02", Key: "C02:rejected-op-changed-view", What: fmt.Sprintf("rejected %s changed the image: %s", op.Kind, d), Op: i}
 		}
+	}
+	switch op.Kind {
+	case "load":
+		st.foreign = true
+	case "create":
+		st.foreign = false
+	}
+	// (in a library-numbered image every free slot is usable; in a foreign one the reference model
+	// itself refuses an add when every free slot's number is carried by a live object)
+	if op.Kind == "add" && op.Valid && !st.foreign && st.havePrev && st.prev.Free > 0 && strings.HasPrefix(res, "res err") {
+		return &Violation{Prop: "C02", Key: "C02:allowed-add-rejected", What: fmt.Sprintf("an add the reference model allows (valid input, %d of %d descriptors free) was refused: %s", st.prev.Free, st.prev.Total, res), Op: i}
 	}
 	seen := map[uint32]bool{}
 	prim := 0
